@@ -27,3 +27,8 @@ CLAIMS["C14"] = ("proof",
   "Typed values: PutInt appends exactly the 8 big-endian two's-complement bytes of the value (every width through the wrappers), GetInt/GetChar/GetDouble consume exactly 8/1/16 bytes of the unread view and return the decoded value of those bytes, ensureData never changes or consumes already-buffered bytes (so a decoded value cannot depend on where frame boundaries fall), doubles are written as trunc(frac*(2^31-1)) and the binary exponent and decoded as frac/(2^31-1)*2^exp; lemmas int_inverse and double_precision close decode(encode(v)) = v (ints) and |decode(encode(v)) - v| <= 2^e/(2^31-1) (doubles, over the reals).",
   PROOF_NOTE + " IEEE rounding, NaN and infinities are idealised (math.Frexp/Ldexp are uninterpreted over the reals); string content layout is proved at the consumption/termination level only.",
   "deductive verification: WP over go/ssa + SMT (z3/cvc5)", "DESIGN.md 4 (C14)")
+
+CLAIMS["C09"] = ("proof",
+  "The attribute filters return only attributes allowed by the opt-in / exclusion / peer-version rule (whole result, loop invariants); the flags handed to the filters are exactly (opted in and not excluded) and (that, or peer older than 9.9.0) as the statement prescribes; the version gate is the lexicographic comparison; in the emit loop an attribute is written plainly on a keyed, non-encrypting stream only if it is not private, and a secret is buffered and flushed only while the stream is encrypting, after the marker frame was flushed, with the crypto mode restored on every exit; every frame written while encrypting is sealed (refinement of *stream.Stream against the message-level interface).",
+  PROOF_NOTE + " classad.IsPrivateAttribute* are uninterpreted predicates (their case-insensitivity is the dependency's); the attribute a formatted expression belongs to is tracked through an assumed provenance label on fmt.Sprintf.",
+  "deductive verification: WP over go/ssa + SMT (z3/cvc5)", "DESIGN.md 4 (C09)")
